@@ -80,3 +80,30 @@ for _p, _q, _t in (('C12', 24000, 480000), ('C05', 24000, 480000), ('C13', 24000
                   thorough=dict(cases=_t, min_nontrivial=3000, time_budget=1200)),
         ],
         assumptions=_alloc_assume)
+
+_RT_HX = ['h_runtime.c', 'rt_oracles.c', 'gm_model.c', 'gm_model_ref.c', 'refexec.c']
+_rt_assume = [
+    'models are generated inside the API contract of ROOT-Sim.h (validated by the reference executor; breaches are generator bugs, never violations)',
+    'DET explores sequentially consistent interleavings at the hook sites only; FREE adds real x86-TSO interleavings',
+    'the reference executor uses the tree\'s own msg_is_before (direction of the tie-break is the runtime\'s) and random.c (judged by C18)',
+    'a run that exhausts the step budget while still producing trace events is inconclusive, not a violation',
+]
+
+
+def _rt(prop, quick_cases, thorough_cases, minnt, free=True, extra_quick=None):
+    st = [stage('h_runtime', _RT_HX, name='h_runtime(DET)', quick=dict(cases=quick_cases, min_nontrivial=minnt, time_budget=200, case_timeout=120),
+                thorough=dict(cases=thorough_cases, min_nontrivial=minnt * 10, time_budget=1500, case_timeout=300), env=dict(RSV_FREE=0))]
+    if free:
+        st.append(stage('h_runtime', _RT_HX, name='h_runtime(FREE)', deterministic=False,
+                        quick=dict(cases=max(200, quick_cases // 8), min_nontrivial=0, time_budget=120, case_timeout=60, workers=8),
+                        thorough=dict(cases=max(2000, thorough_cases // 8), min_nontrivial=0, time_budget=900, case_timeout=120, workers=8),
+                        env=dict(RSV_FREE=1)))
+    return st
+
+
+for _p, _q, _t, _m in (('C01', 6000, 120000, 300), ('C07', 6000, 120000, 300), ('C08', 6000, 120000, 300), ('C09', 6000, 120000, 300),
+                       ('C03', 6000, 120000, 100), ('C04', 6000, 120000, 300), ('C06', 6000, 120000, 300)):
+    CHECKS[_p] = dict(stages=_rt(_p, _q, _t, _m), assumptions=_rt_assume)
+CHECKS['C10'] = dict(stages=_rt('C10', 12000, 240000, 300, free=False), assumptions=_rt_assume)
+CHECKS['C05']['stages'].append(_rt('C05', 4000, 80000, 100, free=False)[0])
+CHECKS['C14']['stages'].append(_rt('C14', 2000, 40000, 100, free=False)[0])
